@@ -363,6 +363,21 @@ def justify(facts, s):
                                 if st.get("s") == "assign" and st["place"]["l"] == o["place"]["l"] and st["rv"].get("r") == "cast" and st["rv"]["op"]["o"] in ("copy", "move") and not st["rv"]["op"]["place"]["proj"]:
                                     if b.locals[st["rv"]["op"]["place"]["l"]]["ty"] == "u8":
                                         return "J15", "index is a u8 widened to usize < 256 <= %d" % ops[0][1]
+        if what == "BoundsCheck" and len(ops) == 2 and ops[0][0] == "const" and isinstance(ops[0][1], int) and ops[0][1] >= 128:
+            # J19: TABLE[c as usize] for a char (or u8) c behind a dominating `c.is_ascii()` test, table of >= 128 entries
+            idx = ops[1]
+            if idx[0] == "cast" and idx[1].startswith("IntToInt"):
+                src = idx[2]
+                for _, a_ in atoms_at(b, bb):
+                    if a_[0] == "pred" and a_[3] is True and isinstance(a_[1], str) and (a_[1].endswith("<impl char>::is_ascii") or a_[1].endswith("<impl u8>::is_ascii")) and len(a_[2]) == 1:
+                        x_ = norm(a_[2][0])
+                        while x_[0] in ("ref", "deref"):
+                            x_ = x_[2] if x_[0] == "ref" else x_[1]
+                        y_ = src
+                        while y_[0] in ("ref", "deref"):
+                            y_ = y_[2] if y_[0] == "ref" else y_[1]
+                        if x_ == y_:
+                            return "J19", "index is an ASCII char/byte (dominating is_ascii() test) widened to usize < 128 <= %d" % ops[0][1]
         if what == "BoundsCheck":
             # J14: TABLE[e as usize] where e is a value of an enum with default discriminants 0..n-1 and the array has at
             # least n elements (ops = [len, index])
